@@ -21,7 +21,8 @@ func (h *vfE2H) doF8Impl(k int, tok string) {
 		return
 	}
 	tp := h.topics[cn.t]
-	seq, id := h.idOf(tok)
+	seq, id := h.idOf(tok, cn.t)
+	h.park([]*vfE2Chan{ch}, true)
 	entered := make(chan bool, 1)
 	release := make(chan bool)
 	VerifSetHook("proto.fin.beforeClientCount", func(string) {
